@@ -323,4 +323,10 @@ def untx (n : Nat) (it : Item) : Option Tx :=
 /-- `encoding::from_bytes` for the current version: one data item spanning the input, read as a `Tx`. -/
 def fromBytes (b : Bytes) : Option Tx := (Cbor.decode b).bind (untx (b.length + 1))
 
+/-- The hypotheses of the byte-level round-trip theorem (`C11_wire_roundtrip`), evaluated by the driver on every
+generated transaction: the item written is within what CBOR heads can carry, the expression slots are well
+shaped and not larger than the fuel `fromBytes` gives the typed reader. -/
+def bytesHyps (t : Tx) : Bool :=
+  (tx t).wfb && t.slots.all fun e => Shaped e && decide (e.size ≤ (toBytes t).length + 1)
+
 end Tx3.Wire
